@@ -308,14 +308,14 @@ theorem slots_refine_rotateRight {p l r : SNode K V C} {pkvs lkvs rkvs : List (K
       NodeRep p' (pkvs.take idx ++ lkvs.getLast hlne :: pkvs.drop (idx + 1)) pkids ∧
       NodeRep l' lkvs.dropLast lkids.dropLast ∧
       NodeRep r' (pkvs[idx] :: rkvs) (lkids.getLast?.toList ++ rkids) :=
-  rotateRightNodes_rep hp hl hr hkind hidx hlne hroom (by decide) (by decide) (by decide) (by decide) (by decide) (by decide) (by decide)
+  rotateRightNodes_rep hp hl hr hkind hidx hlne hroom (by decide) (by decide) (by decide) (by decide) (by decide) (by decide) (by decide) (by decide)
 
 theorem tail_cleared_rotateRight {p l r p' l' r' : SNode K V C} {pkvs lkvs rkvs : List (K × V)} {pkids lkids rkids : List C}
     (hp : NodeRep p pkvs pkids) (hl : NodeRep l lkvs lkids) (hr : NodeRep r rkvs rkids)
     (hkind : lkids = [] ↔ rkids = [])
     {idx : Nat} (hidx : idx < pkvs.length) (hlne : lkvs ≠ []) (hroom : rkvs.length < keysCap) {c : Option C}
     (hop : rotateRightNodes p l r idx = some (p', l', r', c)) : TailOK p' ∧ TailOK l' ∧ TailOK r' := by
-  obtain ⟨p'', l'', r'', h1, h2, h3, h4⟩ := rotateRightNodes_rep hp hl hr hkind hidx hlne hroom (by decide) (by decide) (by decide) (by decide) (by decide) (by decide) (by decide)
+  obtain ⟨p'', l'', r'', h1, h2, h3, h4⟩ := rotateRightNodes_rep hp hl hr hkind hidx hlne hroom (by decide) (by decide) (by decide) (by decide) (by decide) (by decide) (by decide) (by decide)
   rw [hop] at h1; cases h1; exact ⟨h2.tailOK, h3.tailOK, h4.tailOK⟩
 
 /-- an internal-level steal from the left sibling: child `3` changes sides and `l.children[2]` is nil afterwards -/
@@ -332,14 +332,14 @@ theorem slots_refine_rotateLeft {p l r : SNode K V C} {pkvs lkvs rkvs : List (K 
       NodeRep p' (pkvs.take (idx - 1) ++ rkvs.head hrne :: pkvs.drop idx) pkids ∧
       NodeRep l' (lkvs ++ [pkvs[idx - 1]]) (lkids ++ rkids.take 1) ∧
       NodeRep r' (rkvs.drop 1) (rkids.drop 1) :=
-  rotateLeftNodes_rep hp hl hr hkind hidx0 hidx hrne hroom (by decide) (by decide) (by decide) (by decide) (by decide)
+  rotateLeftNodes_rep hp hl hr hkind hidx0 hidx hrne hroom (by decide) (by decide) (by decide) (by decide) (by decide) (by decide) (by decide)
 
 theorem tail_cleared_rotateLeft {p l r p' l' r' : SNode K V C} {pkvs lkvs rkvs : List (K × V)} {pkids lkids rkids : List C}
     (hp : NodeRep p pkvs pkids) (hl : NodeRep l lkvs lkids) (hr : NodeRep r rkvs rkids)
     (hkind : lkids = [] ↔ rkids = [])
     {idx : Nat} (hidx0 : 0 < idx) (hidx : idx ≤ pkvs.length) (hrne : rkvs ≠ []) (hroom : lkvs.length < keysCap)
     {c : Option C} (hop : rotateLeftNodes p l r idx = some (p', l', r', c)) : TailOK p' ∧ TailOK l' ∧ TailOK r' := by
-  obtain ⟨p'', l'', r'', h1, h2, h3, h4⟩ := rotateLeftNodes_rep hp hl hr hkind hidx0 hidx hrne hroom (by decide) (by decide) (by decide) (by decide) (by decide)
+  obtain ⟨p'', l'', r'', h1, h2, h3, h4⟩ := rotateLeftNodes_rep hp hl hr hkind hidx0 hidx hrne hroom (by decide) (by decide) (by decide) (by decide) (by decide) (by decide) (by decide)
   rw [hop] at h1; cases h1; exact ⟨h2.tailOK, h3.tailOK, h4.tailOK⟩
 
 example :
